@@ -172,11 +172,16 @@ var c03Progs = []*Program{
 		{Kind: "BEGINFILE", Body: Blk(Ex(&Postfix{"++", V("n")}), Pr(S("value"), V("n")))},
 		{Kind: "END", Body: Blk(Pr(S("end"), V("n")))},
 	}},
+	// (index 3, below) a program of BEGIN rules only still reads its input: what is wrong with the input is reported
 	// every root is kept: a later value must not change what an earlier one was
 	{Rules: []*Rule{
 		{Kind: "BEGIN", Body: Blk(Ex(Asg("=", V("keep"), Arr_())))},
 		{Kind: "BEGINFILE", Body: Blk(Ex(CallE(Mem(V("keep"), "push"), V("$"))), Pr(S("kept"), CallE(Mem(V("keep"), "length"))))},
 		{Kind: "END", Body: Blk(Pr(V("keep")))},
+	}},
+	{Funcs: []*Func{{Name: "unused", Body: Blk(&Return{X: N("1")})}}, Rules: []*Rule{
+		{Kind: "BEGIN", Body: Blk(Pr(S("only begin")))},
+		{Kind: "BEGIN", Body: Blk(Ex(Asg("=", V("n"), N("0"))))},
 	}},
 }
 
@@ -980,7 +985,7 @@ func c03Stream(c *fw.Ctx, data string, thorough bool) {
 			}
 			c.Do(func() any { return one }, func() *fw.Violation { _, v := c03Run(c, one, &ex, sched); return v })
 		}
-		if prog != 0 {
+		if prog != 0 && prog != 3 {
 			continue
 		}
 		// (ii) every truncation point, (iii) a read error at every position
@@ -994,6 +999,9 @@ func c03Stream(c *fw.Ctx, data string, thorough bool) {
 				var m int64
 				c.Do(func() any { return t }, func() *fw.Violation { return c03Explore(c, t, &tex, nil, 0, &m) })
 			}
+		}
+		if prog == 3 {
+			continue
 		}
 		// a byte order mark (whole or cut off) in front of the stream or of a later value is not JSON, under every chunking
 		for _, bom := range []string{"\xef\xbb\xbf", "\xef\xbb", "\xef", "\xfe\xff", "\xef\xbb\xbf\xef\xbb\xbf"} {
@@ -1050,7 +1058,7 @@ var c03Fixed = []struct{ first, second string }{
 func init() {
 	fw.Register(&fw.Prop{
 		ID: "C03",
-		Rule: "value streams: all sequences of <= 3 values over {1, \"a\", [], [1,2], {\"a\":1}, null, true, -0.5e1, [3]} x separators {none where the grammar allows, blank, newline} x trailing newline, run with three programs (per-value output; a counter across values; every root kept in an array that END prints); " +
+		Rule: "value streams: all sequences of <= 3 values over {1, \"a\", [], [1,2], {\"a\":1}, null, true, -0.5e1, [3]} x separators {none where the grammar allows, blank, newline} x trailing newline, run with four programs (per-value output; a counter across values; every root kept in an array that END prints; BEGIN rules only -- truncation and read faults); " +
 			"for each stream: every chunking when it is short, otherwise every schedule with <= k deviating Read answers (1 byte, up to each value boundary, boundary+1, (0,nil), last bytes together with EOF) plus the all-one-byte schedule; every truncation point; a sticky read error at every position (alone and together with the last bytes); " +
 			"every single-byte replacement and insertion from 10 bytes at every position; a byte order mark (whole, cut off, doubled, UTF-16) in front of the stream and of every later value; plus fixed faulty streams; SEVERAL INPUTS: 5 first inputs x all later inputs of <= 2 values, both readers explored, every truncation point and a read error at every position (offset 0 included) of the later input, also as third of three inputs, " +
 			"with the monitor also flagging any Read on a later input while output of the earlier inputs is outstanding; THE BINARY BEHIND A PIPE: 6 programs (newline-terminated output, printf without a newline, mixtures, 3000-byte fields) x 3 streams, each value written with one following byte and the next one held back until the value's output has arrived (generous 45 s limit, normal latency < 1 ms); LARGE VALUES: one value of 18 sizes around 512 B ... 300 kB (buffer thresholds) after 0 / 3 and before 1 / 5 / 64 / 5000 small records, delivered in 16 fixed Read sizes; oracle: an independent RFC 8259 stream scanner splits the bytes into complete values + clean/error/truncated, the model gives the output of the complete values, " +
